@@ -44,4 +44,9 @@ META = {
   'text': 'Theorems for startTerm followed by any sequence of deliveries and election triggers under any registry state: the invariant TInv holds, hence at most one PREPARE hash, one COMMIT hash and one proposal hash per view, PREPARE and COMMIT of a view agree, every PREPARE is for the stored proposal of that view\'s leader who is not this node, every COMMIT was sent holding a prepared certificate or a commit quorum for exactly that (view, hash), VIEW_CHANGE views strictly increase, and PREPREPARE/PREPARE/NEW_VIEW are only sent for the current view, which never decreases. Tie: lockstep world engine (equivocating Byzantine leaders, duplicates, re-delivery) + a monitor over each node\'s send stream.',
   'note': 'Trusted: Coq kernel, Term.v model, harness. Stated per term (one height); a height gets one term per node by C13.',
  },
+ 'C09': {
+  'technique': 'Coq proof (storage invariant over all event sequences + extractor/selection lemmas) + lockstep correspondence',
+  'text': 'Theorems: the storage invariant SInv (every stored proposal is a verified PREPREPARE of that view\'s leader whose block matches its hash, every stored PREPARE is a verified one of a distinct non-leader member, a prepared flag is backed by a stored quorum certificate, every stored vote is a valid vote of a member for this height and view carrying its block iff it carries a proof) holds after startTerm and any sequence of deliveries and elections; from it: the VIEW_CHANGE sent on timeout by a prepared node carries a proof satisfying proof_spec for its prepared view plus the matching block (none if unprepared); the extractor never fails or panics; the NEW_VIEW of an elected node embeds exactly its stored votes, which pass the quorum test, proposes the block of a stored vote with maximal proof view, and requests a fresh block only if no stored vote has a proof. Tie: lockstep world engine with prepared nodes in many views, mixed vote sets, proof-without-block and delayed votes; Go monitors check each outgoing VIEW_CHANGE/NEW_VIEW.',
+  'note': 'Trusted: Coq kernel, Term.v model, harness. "Highest valid prepared proof" is with respect to the stored (verified) votes.',
+ },
 }
